@@ -137,7 +137,8 @@ func devirtFunc(pl *planner, fd *ast.FuncDecl) int {
 	type bound struct {
 		recv *types.Var
 		meth string
-		lit  *types.Var // instead: the local that holds the function literal itself
+		lit  *types.Var  // instead: the local that holds the function literal itself
+		fn   *types.Func // instead: a declared function the local was bound to
 	}
 	var resolve func(v *types.Var, depth int) (bound, bool)
 	resolve = func(v *types.Var, depth int) (bound, bool) {
@@ -154,6 +155,9 @@ func devirtFunc(pl *planner, fd *ast.FuncDecl) int {
 			}
 			return bound{lit: v}, true
 		case *ast.Ident:
+			if f, isFn := info.Uses[r].(*types.Func); isFn && f.Pkg() == pl.pkg.Types && f.Parent() == pl.pkg.Types.Scope() {
+				return bound{fn: f}, true // `pred := isFatal`
+			}
 			w, _ := info.Uses[r].(*types.Var)
 			if w == nil {
 				return bound{}, false
@@ -200,6 +204,15 @@ func devirtFunc(pl *planner, fd *ast.FuncDecl) int {
 		// the receiver's name must mean the receiver at the call
 		scope := pl.pkg.Types.Scope().Innermost(call.Pos())
 		if scope == nil {
+			return true
+		}
+		if b.fn != nil {
+			if _, o := scope.LookupParent(b.fn.Name(), call.Pos()); o != types.Object(b.fn) {
+				return true
+			}
+			call.Fun = ast.NewIdent(b.fn.Name())
+			replaced[v] = true
+			n++
 			return true
 		}
 		if b.lit != nil {
@@ -254,13 +267,18 @@ func devirtFunc(pl *planner, fd *ast.FuncDecl) int {
 		u := use{kind: useOther}
 		switch p := stack[len(stack)-2].(type) {
 		case *ast.AssignStmt:
-			if len(p.Lhs) == 1 && len(p.Rhs) == 1 && p.Rhs[0] == ast.Expr(id) {
-				if lid, ok := p.Lhs[0].(*ast.Ident); ok {
-					if lid.Name == "_" && p.Tok == token.ASSIGN {
-						u.kind = useBlank
-					} else if p.Tok == token.DEFINE {
-						if w, _ := info.Defs[lid].(*types.Var); w != nil {
-							u = use{useDef, w}
+			if len(p.Lhs) == len(p.Rhs) {
+				for i := range p.Rhs {
+					if p.Rhs[i] != ast.Expr(id) {
+						continue
+					}
+					if lid, ok := p.Lhs[i].(*ast.Ident); ok {
+						if lid.Name == "_" && p.Tok == token.ASSIGN {
+							u.kind = useBlank
+						} else if p.Tok == token.DEFINE {
+							if w, _ := info.Defs[lid].(*types.Var); w != nil {
+								u = use{useDef, w}
+							}
 						}
 					}
 				}
@@ -304,6 +322,34 @@ func devirtFunc(pl *planner, fd *ast.FuncDecl) int {
 		}
 		switch x := c.Node().(type) {
 		case *ast.AssignStmt:
+			if len(x.Lhs) == len(x.Rhs) && len(x.Lhs) > 1 {
+				var lhs, rhs []ast.Expr
+				for i := range x.Lhs {
+					drop := false
+					if lid, ok := x.Lhs[i].(*ast.Ident); ok {
+						if x.Tok == token.DEFINE {
+							if v, _ := info.Defs[lid].(*types.Var); v != nil && dead[v] {
+								drop = true
+							}
+						} else if lid.Name == "_" {
+							if rid, ok := x.Rhs[i].(*ast.Ident); ok {
+								if v, _ := info.Uses[rid].(*types.Var); v != nil && dead[v] {
+									drop = true
+								}
+							}
+						}
+					}
+					if !drop {
+						lhs, rhs = append(lhs, x.Lhs[i]), append(rhs, x.Rhs[i])
+					}
+				}
+				if len(lhs) == 0 {
+					c.Delete()
+					return false
+				}
+				x.Lhs, x.Rhs = lhs, rhs
+				return true
+			}
 			if len(x.Lhs) != 1 || len(x.Rhs) != 1 {
 				return true
 			}
